@@ -180,6 +180,13 @@ func c19Rate(rng *rand.Rand, idx int) []Case {
 		m2 := int64(rng.Intn(60))
 		v = fmt.Sprintf("%d/%d%s%d%s", n, mult, u.s, m2, u2.s)
 		per = mult*u.ns + m2*u2.ns
+	case 6: // a fraction of a unit, with and without a leading digit (what time.ParseDuration accepts)
+		f := []struct {
+			s  string
+			ns int64
+		}{{".5s", 5e8}, {"0.5s", 5e8}, {"1.5s", 15e8}, {".25ms", 25e4}, {".5m", 30e9}, {"2.5h", 9000e9}, {".001s", 1e6}, {"1.5us", 1500}, {".5s500ms", 1e9}}[rng.Intn(9)]
+		v = fmt.Sprintf("%d/%s", n, f.s)
+		per = f.ns
 	default:
 		v = fmt.Sprintf("%d/%d%s", n, mult, u.s)
 		per = mult * u.ns
